@@ -20,7 +20,7 @@ XML I{element} classes.
 
 from suds import *
 from suds.sax import *
-from suds.sax.text import Text
+from suds.sax.text import Raw, Text
 from suds.sax.attribute import Attribute
 
 
@@ -812,7 +812,7 @@ class Element(UnicodeMixin):
             return "".join(result)
         result.append(">")
         if self.hasText():
-            result.append(self.text.escape())
+            result.append(self.__escaped_text())
         for c in self.children:
             result.append("\n")
             result.append(c.str(indent + 1))
@@ -837,11 +837,25 @@ class Element(UnicodeMixin):
             return "".join(result)
         result.append(">")
         if self.hasText():
-            result.append(self.text.escape())
+            result.append(self.__escaped_text())
         for c in self.children:
             result.append(c.plain())
         result.append("</%s>" % (self.qname(),))
         return "".join(result)
+
+    def __escaped_text(self):
+        """
+        Get this element's text escaped for serialization.
+
+        Carriage returns are written as character references as any XML parser
+        would otherwise normalize them to line feeds (XML 1.0, section 2.11).
+        Raw (verbatim XML) text is left untouched.
+
+        """
+        text = self.text.escape()
+        if isinstance(text, Raw):
+            return text
+        return text.replace("\r", "&#13;")
 
     def nsdeclarations(self):
         """
